@@ -92,12 +92,12 @@ def holds(c, val):
         return all(st[i] + du[i] <= st[j] or st[j] + du[j] <= st[i] for i in range(len(st)) for j in range(i + 1, len(st)))
     if kind == "cumulative":
         st, du, de, cap = [val[i] for i in c[1]], c[2], c[3], c[4]
-        if not st:
-            return True
-        for t in range(min(st) - 1, max(s + d for s, d in zip(st, du)) + 2):
+        # the load is piecewise constant and only rises at a start time: its maximum is attained at some start
+        # (with no task running it is 0 <= capacity: capacities are >= 0)
+        for t in set(st):
             if sum(de[i] for i in range(len(st)) if st[i] <= t < st[i] + du[i]) > cap:
                 return False
-        return True
+        return cap >= 0
     raise AssertionError(kind)
 
 
@@ -134,21 +134,44 @@ def build_expr(e, xs):
     raise AssertionError(op)
 
 
-def build_constraint(m, c, xs):
+ITER_STYLES = ("list", "tuple", "gen", "iter", "map", "reversed2")
+
+
+def _cont(style, lst):
+    """The same sequence of variables handed over as a different kind of iterable (class I: one-shot iterators)."""
+    if style == "tuple":
+        return tuple(lst)
+    if style == "gen":
+        return (v for v in lst)
+    if style == "iter":
+        return iter(lst)
+    if style == "map":
+        return map(lambda v: v, lst)
+    if style == "reversed2":
+        return reversed(list(reversed(lst)))
+    return list(lst)
+
+
+def build_constraint(m, c, xs, style="list", track=None):
     kind = c[0]
     if kind == "lin":
         lhs, rhs = build_expr(c[1], xs), build_expr(c[2], xs)
         return (lhs != rhs) if c[3] else (lhs == rhs)
     if kind == "all_different":
-        return m.all_different([xs[i] for i in c[1]])
+        return m.all_different(_cont(style, [xs[i] for i in c[1]]))
     if kind in ("sum_eq", "sum_le", "sum_ge"):
-        return getattr(m, kind)([xs[i] for i in c[1]], c[2])
+        return getattr(m, kind)(_cont(style, [xs[i] for i in c[1]]), c[2])
     if kind == "circuit":
-        return m.circuit([xs[i] for i in c[1]])
+        return m.circuit(_cont(style, [xs[i] for i in c[1]]))
+    seq = tuple if style in ("tuple", "gen") else list  # len() is needed here: lists and tuples only
+    starts = seq(xs[i] for i in c[1])
+    args = [starts] + [seq(a) for a in c[2:4 if kind == "cumulative" else 3]]
+    if track is not None:
+        track.append(([list(a) for a in args], args))
     if kind == "no_overlap":
-        return m.no_overlap([xs[i] for i in c[1]], list(c[2]))
+        return m.no_overlap(*args)
     if kind == "cumulative":
-        return m.cumulative([xs[i] for i in c[1]], list(c[2]), list(c[3]), c[4])
+        return m.cumulative(*args, c[4])
     raise AssertionError(kind)
 
 
@@ -159,15 +182,25 @@ def build_model(spec):
 
     m = Model()
     xs = [m.int_var(lo, hi, nm) if nm is not None else m.int_var(lo, hi) for (nm, lo, hi) in spec["vars"]]
+    style = spec.get("iter", "list")
+    track = []
     for c in spec["cons"]:
         try:
-            built = build_constraint(m, c, xs)
+            built = build_constraint(m, c, xs, style, track)
         except TypeError:
             return None
         if not isinstance(built, tuple):
             return None
         m.add(built)
+        if spec.get("twice") and c[0] != "lin":  # the same constraint OBJECT added twice (class A)
+            m.add(built)
+    m._c05_inputs = track
     return m
+
+
+def model_snapshot(m):
+    return (list(m._vars), [(v.lb, v.ub, v.name, tuple(v.bool_vars.items())) for v in m._vars.values()],
+            [id(c) for c in m._constraints], m._next_bool)
 
 
 # ---------------------------------------------------------------- walking the REAL model into the shared AST
@@ -218,30 +251,50 @@ def walk_model(m):
 
 
 # ---------------------------------------------------------------- running the implementation
-def run_impl(spec, solver, limit, hints):
-    """-> ('refused'|'unbuildable',) | ('exc', type, msg) | ('hang',) | ('ok', status_name, [sol dict, ...])"""
-    try:
-        m = build_model(spec)
-    except ValueError as e:  # documented refusals of the constructors (negative demand, length mismatch)
-        return ("refused", str(e)[:80])
+def run_impl(spec, solver, limit, hints, kwargs=None, model=None, timeout=5):
+    """-> ('refused'|'unbuildable',) | ('exc', type, msg) | ('hang',) | ('bad', description)
+       | ('ok', status_name, [sol dict, ...], first)
+    A fresh model is built unless `model` is given (call sequences on one Model object)."""
+    kwargs = kwargs or {}
+    m = model
     if m is None:
-        return ("unbuildable",)
-    res = guarded(lambda: m.solve(solver=solver, solution_limit=limit, hints=dict(hints) if hints is not None else None), timeout=5)
-    if res[0] == "hang":
+        try:
+            m = build_model(spec)
+        except ValueError as e:  # documented refusals of the constructors (negative demand, length mismatch)
+            return ("refused", str(e)[:80])
+        if m is None:
+            return ("unbuildable",)
+    h_arg = dict(hints) if hints is not None else None
+    h_copy = dict(h_arg) if h_arg is not None else None
+    snap = model_snapshot(m)
+    res = guarded(lambda: m.solve(solver=solver, solution_limit=limit, hints=h_arg, **kwargs), timeout=timeout)
+    if res[0] == "hang" and model is None:
         # wall-clock limit on a shared machine: a real hang persists on a fresh model with a generous limit
         m = build_model(spec)
-        res = guarded(lambda: m.solve(solver=solver, solution_limit=limit, hints=dict(hints) if hints is not None else None), timeout=40)
+        snap = model_snapshot(m)
+        res = guarded(lambda: m.solve(solver=solver, solution_limit=limit, hints=h_arg, **kwargs), timeout=max(40, 4 * timeout))
     if res[0] != "ok":
         return res
+    # class A: the caller's objects are left alone
+    if h_arg != h_copy or (h_arg is not None and list(h_arg) != list(h_copy)):
+        return ("bad", f"the hints dictionary passed by the caller was modified: {h_copy} -> {h_arg}")
+    for before, objs in getattr(m, "_c05_inputs", []):
+        if [list(a) for a in objs] != before:
+            return ("bad", "a list passed to no_overlap/cumulative was modified by solve")
+    if model_snapshot(m) != snap:
+        return ("bad", "solve changed the Model (variables, literal numbering, constraint list or _next_bool)")
     r = res[1]
     sols = list(r.solutions) if r.solutions is not None else ([r.solution] if r.solution is not None else [])
     return ("ok", r.status.name, [dict(s) if isinstance(s, dict) else s for s in sols], r.solution)
 
 
-def judge(spec, truth, solver, limit, hints, out):
-    """None if the answer obeys the property, else a description."""
+def judge(spec, truth, solver, limit, hints, out, budget=False):
+    """None if the answer obeys the property, else a description.  `budget`: an explicit search budget
+    (max_conflicts ...) was passed, so giving up (MAX_ITER) is a legitimate answer."""
     if out[0] in ("exc", "hang"):
         return f"implementation {out[0]}: {out[1:]}"
+    if out[0] == "bad":
+        return out[1]
     _, status, sols, first = out
     nidx = named_idx(spec)
     names = [spec["vars"][i][0] for i in nidx]
@@ -251,6 +304,8 @@ def judge(spec, truth, solver, limit, hints, out):
         if sols:
             return "INFEASIBLE with a solution attached"
         return None
+    if status == "MAX_ITER" and budget:
+        return "MAX_ITER with a solution attached" if sols else None
     if status not in ("OPTIMAL", "FEASIBLE"):
         return f"status {status}"
     if not sols:
@@ -276,6 +331,11 @@ def judge(spec, truth, solver, limit, hints, out):
         if set(keys) != truth:
             return f"enumerated {len(set(keys))} distinct solutions with solution_limit={limit}, {len(truth)} exist"
     all_named = len(nidx) == len(spec["vars"])
+    if not hints and not budget and (all_named or uses_dfs(spec, solver)):
+        # one answer per (named) solution up to the limit: exactly min(limit, #solutions) answers
+        want = min(max(limit, 1), len(truth))
+        if len(sols) != want:
+            return f"{len(sols)} solutions returned for solution_limit={limit} although {len(truth)} exist (expected {want})"
     if len(set(keys)) != len(keys) and (all_named or solver != "sat" and uses_dfs(spec, solver)):
         return f"{len(keys)} solutions returned but only {len(set(keys))} distinct"
     return None
@@ -528,7 +588,7 @@ def wrap(lets, body):
 # ---------------------------------------------------------------- one spec, all solver settings
 def explore(spec, rng_hints):
     """Run every solver setting on one spec.  Returns dict with outcomes, oracle verdicts and Coq cases."""
-    rec = {"spec": spec, "status": None, "bad": [], "dfs_cases": [], "ans_cases": [], "runs": 0, "skipped": None}
+    rec = {"spec": spec, "status": None, "bad": [], "dfs_cases": [], "ans_cases": [], "runs": 0, "skipped": None, "outs": {}}
     try:
         m = build_model(spec)
     except ValueError as e:
@@ -547,13 +607,17 @@ def explore(spec, rng_hints):
                            f"constraints are {'all' if supported else 'not all'} handled by the DFS", None))
     hint_sets = [None, rng_hints]
     seen_answers = set()
+    # CpAst.circuit_valsb indexes the successor list with Z.to_nat of the values: no unary blow-up inside coqc
+    coq_ok = not any(c[0] == "circuit" and any(max(abs(spec["vars"][i][1]), abs(spec["vars"][i][2])) > 2000 for i in c[1])
+                     for c in spec["cons"])
     for hints in hint_sets:
         for limit in LIMITS:
             outs = {}
             for solver in SOLVERS:
-                out = run_impl(spec, solver, limit, hints)
+                out = run_impl(spec, solver, limit, fresh_hints(hints))
                 rec["runs"] += 1
                 outs[solver] = out
+                rec["outs"][(solver, limit, hints is None)] = out
                 bad = judge(spec, truth, solver, limit, hints, out)
                 if bad:
                     rec["bad"].append((solver, limit, hints, bad, out))
@@ -561,7 +625,9 @@ def explore(spec, rng_hints):
                 sols = out[2]
                 key = None if out[1] == "INFEASIBLE" else tuple(tuple(sorted(s.items())) for s in sols)
                 # kernel-checked validity of the answer (each distinct answer of this model once)
-                if key is None:
+                if not coq_ok:
+                    pass
+                elif key is None:
                     if "INF" not in seen_answers and box_size(spec) <= 1500:
                         seen_answers.add("INF")
                         rec["ans_cases"].append(wrap(lets, f"({model}, @None (list sol))"))
@@ -589,6 +655,25 @@ def explore(spec, rng_hints):
                 if a[0] == "ok" and (a[1], a[2]) != (o[1], o[2]):
                     rec["bad"].append(("auto", limit, hints, f"auto (dfs chosen) answers {a[1:3]} but solver='dfs' answers {o[1:3]}", a))
     rec["status"] = "feasible" if truth else "infeasible"
+    rec["truth"] = truth
+    return rec
+
+
+def explore_known(spec, known, settings, timeout):
+    """Class S: by-construction oracle; the Coq spec_check judges the (all-named) answers as well."""
+    rec = {"bad": [], "ans_cases": [], "runs": 0}
+    m = build_model(spec)
+    lets = model = names = None
+    if len(spec["vars"]) <= 70 and max(hi - lo for _, lo, hi in spec["vars"]) <= 70:
+        lets, model, names = coq_model(m)
+    for solver, limit in settings:
+        out = run_impl(spec, solver, limit, None, timeout=timeout)
+        rec["runs"] += 1
+        bad = judge_known(spec, known, solver, limit, out)
+        if bad:
+            rec["bad"].append((solver, limit, None, bad, out))
+        elif lets and out[1] != "INFEASIBLE":
+            rec["ans_cases"].append(wrap(lets, f"({model}, Some {clist(out[2][:3], lambda s: coq_sol(names, s))})"))
     return rec
 
 
@@ -604,6 +689,8 @@ def shrink(spec, solver, limit, hints):
         return judge(sp, oracle(sp), solver, limit, hints, out) is not None
 
     cur = json.loads(json.dumps(spec))
+    if box_size(cur) > 20000:
+        return cur
     changed = True
     while changed:
         changed = False
@@ -627,6 +714,570 @@ def shrink(spec, solver, limit, hints):
     return cur
 
 
+
+# =================================================================================================
+# Round 2 (HARDENING.md): generator families for the input-shape classes
+#   M magnitudes - L labels - I iterables - S size thresholds - O option corners - A aliasing / call sequences
+#   H rare histories (event-directed search with an instrumented reference port of the DFS)
+# =================================================================================================
+BIG = [2**31, 10**9, 2**53 - 1, 2**53, 2**53 + 1, 2**60, 10**18, 1_700_000_000_000_000_000, 2**44 + 1, 2**63, 2**64 + 3,
+       -(2**31), -(10**18), -(2**53) - 1, 10**6, 2**24 + 1, 2**52 + 1, 3 * 10**9 + 7, 256, 257, 65536]
+BIG_COEF = [10**9, 2**31, 2**53 + 1, -(10**9), 10**18, 3, -7, 1, -1, 2]
+
+
+def _lin_at_point(rng, lhs, rhs, point, ne):
+    """Adjust the constant so that lhs == rhs holds at `point` (an == that is satisfiable / a != that bites)."""
+    diff = ev(lhs, point) - ev(rhs, point)
+    if diff:
+        if rng.random() < 0.5:
+            rhs = ["add", rhs, K(diff)]
+        elif lhs[0] != "const":
+            lhs = ["sub", lhs, K(diff)]
+        else:
+            rhs = ["add", rhs, K(diff)]
+    return ["lin", lhs, rhs, ne]
+
+
+def rand_expr_big(rng, nv, depth, coefs):
+    r = rng.random()
+    if depth == 0 or r < 0.35:
+        return V(rng.randrange(nv)) if rng.random() < 0.85 else K(rng.choice(BIG + [0, 1, -1, 5]))
+    if r < 0.6:
+        return ["add", rand_expr_big(rng, nv, depth - 1, coefs), rand_expr_big(rng, nv, depth - 1, coefs)]
+    if r < 0.8:
+        return ["sub", rand_expr_big(rng, nv, depth - 1, coefs), rand_expr_big(rng, nv, depth - 1, coefs)]
+    return [rng.choice(["mul", "rmul"]), rng.choice(coefs), rand_expr_big(rng, nv, depth - 1, coefs)]
+
+
+def rand_spec_big(rng):
+    """Class M: tiny domains sitting at 2^31 .. 2^64 / 10^18 (and below -2^53), huge coefficients and constants,
+    sums mixing huge and tiny values.  The brute-force oracle is exact (Python ints)."""
+    nv = rng.randint(1, 4)
+    mode = rng.choice(["base", "base", "mixed", "coef"])
+    base = rng.choice(BIG)
+    variables = []
+    for i in range(nv):
+        b = base if mode != "mixed" else rng.choice([base, 0, rng.choice(BIG)])
+        if mode == "coef":
+            b = rng.choice([0, 0, 3, base])
+        lo = b + rng.randint(-2, 3)
+        variables.append([f"v{i}", lo, lo + rng.randint(0, 3)])
+    if rng.random() < 0.2:
+        i = rng.randrange(nv)
+        variables[i][0] = None
+    coefs = COEFS + (BIG_COEF if mode == "coef" or rng.random() < 0.3 else [])
+    point = [rng.randint(lo, hi) for _, lo, hi in variables]
+    cons = []
+    dfs_only = rng.random() < 0.6
+    for _ in range(rng.randint(1, 3)):
+        kind = rng.choice(["lin"] * 5 + ["all_different"] + ([] if dfs_only else ["sum_eq", "sum_le", "sum_ge", "no_overlap", "cumulative", "circuit"]))
+        if kind == "lin":
+            lhs, rhs = rand_expr_big(rng, nv, rng.randint(0, 2), coefs), rand_expr_big(rng, nv, rng.randint(0, 2), coefs)
+            ne = rng.random() < 0.35
+            cons.append(_lin_at_point(rng, lhs, rhs, point, ne) if rng.random() < 0.8 else ["lin", lhs, rhs, ne])
+        elif kind == "all_different":
+            cons.append([kind, rng.sample(range(nv), rng.randint(1, nv))])
+        elif kind in ("sum_eq", "sum_le", "sum_ge"):
+            idx = [rng.randrange(nv) for _ in range(rng.randint(0, 4))]
+            cons.append([kind, idx, sum(point[i] for i in idx) + rng.choice([0, 0, 0, 1, -1, 2])])
+        elif kind == "no_overlap":
+            k = rng.randint(1, min(3, nv))
+            cons.append([kind, rng.sample(range(nv), k), [rng.choice([0, 1, 2, 3, 10**9, 2**53 + 1]) for _ in range(k)]])
+        elif kind == "cumulative":
+            k = rng.randint(1, min(3, nv))
+            if max(v[2] for v in variables) - min(v[1] for v in variables) > 50:
+                continue  # the encoder walks every time point between the earliest start and the latest end
+            cons.append([kind, rng.sample(range(nv), k), [rng.randint(0, 4) for _ in range(k)],
+                         [rng.choice([0, 1, 2, 10**9, 2**53 + 1]) for _ in range(k)], rng.choice([0, 1, 3, 10**9, 2**53 + 2])])
+        else:
+            cons.append([kind, rng.sample(range(nv), rng.randint(1, nv))])
+    return {"vars": variables, "cons": cons, "family": "M"}
+
+
+# ---------------------------------------------------------------- L labels / I iterables / A duplicated constraints
+def _fresh(sv):
+    """An equal but not identical string (built at call time)."""
+    return "".join(list(sv)) if len(sv) > 1 else sv
+
+
+ODD_NAMES = ["", " ", "x y", "éß", "0", "None", "False", "a.b", "-1", "x" * 40, "name\twith\ttabs", "数", "V", "v"]
+
+
+def relabel(rng, spec):
+    """Class L: falsy / odd / long (non-interned, rebuilt on every use) variable names; hidden stay hidden."""
+    pool = ODD_NAMES[:]
+    rng.shuffle(pool)
+    out = json.loads(json.dumps(spec))
+    used = set()
+    for i, v in enumerate(out["vars"]):
+        if v[0] is None:
+            continue
+        nm = pool[i % len(pool)] + ("" if rng.random() < 0.6 else "#" * (i + 1))
+        if v[0].startswith("_"):
+            nm = rng.choice(["_", "__", "_ "]) + nm
+        while nm in used or (nm.startswith("_v") and nm[2:].isdigit()):
+            nm += "'"
+        used.add(nm)
+        v[0] = nm
+    return out
+
+
+def fresh_hints(hints):
+    return {_fresh(k): v for k, v in hints.items()} if hints else hints
+
+
+def decorate(rng, spec):
+    """Random presentation of one spec: label map (L), iterable kind (I), same constraint object twice / a second
+    constraint of the same global kind (A)."""
+    sp = spec
+    r = rng.random()
+    if r < 0.2:
+        sp = relabel(rng, sp)
+    else:
+        sp = dict(sp)
+    if rng.random() < 0.35:
+        sp["iter"] = rng.choice(ITER_STYLES[1:])
+    if rng.random() < 0.08:
+        sp["twice"] = True
+    glob = [c for c in sp["cons"] if c[0] in ("circuit", "no_overlap", "cumulative", "all_different", "sum_eq", "sum_le", "sum_ge")]
+    if glob and rng.random() < 0.25:  # two constraints of the same kind in one model
+        c = json.loads(json.dumps(rng.choice(glob)))
+        if c[0] in ("no_overlap", "cumulative") and rng.random() < 0.5:
+            c[2] = [max(0, d + rng.choice([-1, 0, 1])) for d in c[2]]
+        if c[0] in ("sum_le", "sum_ge") and rng.random() < 0.5:
+            c[2] += rng.choice([-1, 1])
+        if c[0] in ("no_overlap", "cumulative", "circuit") and len(c[1]) >= 2 and rng.random() < 0.3:
+            c[1][0] = c[1][1]  # the same variable in two positions
+        sp["cons"] = list(sp["cons"]) + [c]
+    return sp
+
+
+# ---------------------------------------------------------------- S size thresholds (answers known by construction)
+def _sumexpr(idx, coef=None):
+    e = V(idx[0]) if coef is None else ["mul", coef[0], V(idx[0])]
+    for k, i in enumerate(idx[1:], 1):
+        e = ["add", e, V(i) if coef is None else ["mul", coef[k], V(i)]]
+    return e
+
+
+def known_cases(rng, thorough):
+    """(spec, known, settings, timeout): structured large models whose answer is known by construction, crossing
+    17 / 65 / 257 / 1025 / 2049 / 65537 / 10^5 (variables, terms, domain values, constraints, solutions, search nodes)."""
+    out = []
+    T = thorough
+    # permutations: all_different over n variables with n values (feasible), n into n-1 (pigeonhole, infeasible)
+    for n in [17, rng.choice([33, 65])] + ([129] if T else []):
+        sp = {"vars": [[f"x{i}", 0, n - 1] for i in range(n)], "cons": [["all_different", list(range(n))]]}
+        st = [("dfs", 1), ("auto", 3)] + ([("sat", 1)] if n <= 33 else [])
+        out.append((sp, {"feasible": True}, st, 30))
+    n = rng.choice([6, 7])
+    out.append(({"vars": [[f"p{i}", 1, n - 1] for i in range(n)], "cons": [["all_different", list(range(n))]]},
+                {"feasible": False}, [("dfs", 1), ("sat", 1), ("auto", 1000)], 30))
+    # long linear expression / sum_* over k binary variables with a planted total
+    for k in [17, 65] + ([257] if T else []):
+        planted = [rng.randint(0, 1) for _ in range(k)]
+        coef = [rng.choice([1, 1, 2, -1, 3]) for _ in range(k)]
+        tot = sum(c * v for c, v in zip(coef, planted))
+        sp = {"vars": [[f"b{i}", 0, 1] for i in range(k)], "cons": [["lin", _sumexpr(list(range(k)), coef), K(tot), False]]}
+        out.append((sp, {"feasible": True}, [("dfs", 1), ("sat", 1)] if k <= 65 else [("dfs", 1)], 60))
+        sp = {"vars": [[f"b{i}", 0, 1] for i in range(k)], "cons": [[rng.choice(["sum_eq", "sum_le", "sum_ge"]), list(range(k)), sum(planted)]]}
+        if k <= 65 or T:
+            out.append((sp, {"feasible": True}, [("auto", 1), ("dfs", 2)], 60))
+        sp = {"vars": [[f"b{i}", 0, 1] for i in range(k)], "cons": [["sum_eq", list(range(k)), k + 1]]}
+        out.append((sp, {"feasible": False}, [("auto", 1)], 60))
+    # many variables without constraints (depth of the recursion), many constraints on one variable
+    n = 990 if T else rng.choice([257, 300, 600])
+    out.append(({"vars": [[f"f{i}", 0, 1] for i in range(n)], "cons": []}, {"feasible": True}, [("dfs", 1), ("sat", 2)], 30))
+    c = rng.choice([257, 1025, 2049])
+    holes = rng.sample(range(c + 6), c)
+    out.append(({"vars": [["g", 0, c + 5]], "cons": [["lin", V(0), K(h), True] for h in holes]},
+                {"feasible": True, "count": 6}, [("dfs", 1000), ("sat" if c <= 300 else "auto", 1000)], 60))
+    # large domains: 65537 values (DFS), 257 / 1025 (SAT)
+    N = rng.choice([65536, 65537, 100003])
+    t = rng.randrange(N - 5)
+    out.append(({"vars": [["x", 0, N], ["y", 0, 3]], "cons": [["lin", ["mul", 3, V(0)], ["add", V(1), K(3 * t)], False]]},
+                {"feasible": True, "count": 2}, [("dfs", 1000), ("auto", 1)], 60))
+    N = 1025 if T else 257
+    out.append(({"vars": [["x", -5, N - 6], ["y", 0, 3]], "cons": [["lin", ["mul", 3, V(0)], ["add", V(1), K(3 * 7)], False]]},
+                {"feasible": True, "count": 2}, [("sat", 1000)], 60))
+    # many solutions: 2^k answers enumerated (2049 / 4097 / 8192 thresholds)
+    k = 13
+    out.append(({"vars": [[f"e{i}", 0, 1] for i in range(k)], "cons": []}, {"feasible": True, "count": 2**k},
+                [("dfs", 10**6), ("dfs", 2**k), ("dfs", 2**k - 1), ("auto", 2049)], 60))
+    k = 12 if T else 11
+    out.append(({"vars": [[f"e{i}", 0, 1] for i in range(k)], "cons": []}, {"feasible": True, "count": 2**k}, [("sat", 10**6)], 120))
+    # search trees of more than 10^5 nodes before the first solution (the API documents no node limit):
+    #   z = 0 leads into 2^k free binary choices above an unsatisfiable core u != v != t != u, z = 1 is satisfiable
+    k = 16 if (T or rng.random() < 2) else 15
+    vs = [["z", 0, 1]] + [[f"b{i}", 0, 1] for i in range(k)] + [["u", 0, 1], ["v", 0, 1], ["t", 0, 2]]
+    u, v, t = k + 1, k + 2, k + 3
+    sp = {"vars": vs, "cons": [["lin", V(u), V(v), True], ["lin", V(u), V(t), True], ["lin", V(v), V(t), True],
+                               ["lin", ["add", V(t), ["mul", 10, V(0)]], K(2), True]]}
+    out.append((sp, {"feasible": True}, [(rng.choice(["dfs", "auto"]), 1)], 300))
+    if T:  # pigeonhole behind a switch (about 260 000 nodes)
+        n = 10
+        vs = [["z", 0, 1]] + [[f"x{i}", 1, n - 1] for i in range(n - 1)] + [["w", 1, n]]
+        sp = {"vars": vs, "cons": [["all_different", list(range(1, n + 1))], ["lin", ["add", V(n), ["mul", 10, V(0)]], K(n), True]]}
+        out.append((sp, {"feasible": True}, [("auto", 1)], 600))
+    for sp, *_ in out:
+        sp["family"] = "S"
+    return out
+
+
+def judge_known(spec, known, solver, limit, out):
+    """Oracle without brute force: feasibility (and the number of solutions) is known by construction; every returned
+    assignment is evaluated directly (all variables of these models are named)."""
+    if out[0] in ("exc", "hang"):
+        return f"implementation {out[0]}: {out[1:]}"
+    if out[0] == "bad":
+        return out[1]
+    _, status, sols, first = out
+    names = [v[0] for v in spec["vars"]]
+    if status == "INFEASIBLE":
+        return "INFEASIBLE although the model is satisfiable by construction" if known["feasible"] else None
+    if status not in ("OPTIMAL", "FEASIBLE"):
+        return f"status {status}"
+    if not known["feasible"]:
+        return f"{status} with {str(sols[:1])[:200]} although the model is unsatisfiable by construction"
+    if not sols or len(sols) > max(limit, 1):
+        return f"{len(sols)} solutions for solution_limit={limit}"
+    seen = set()
+    for sol in sols:
+        if not isinstance(sol, dict) or set(sol) != set(names):
+            return f"solution keys differ from the variables: {str(sol)[:200]}"
+        val = [sol[nm] for nm in names]
+        for (nm, lo, hi), x in zip(spec["vars"], val):
+            if not isinstance(x, int) or not lo <= x <= hi:
+                return f"value of {nm} = {x} outside {lo}..{hi}"
+        for c in spec["cons"]:
+            if not holds(c, val):
+                return f"returned assignment breaks {str(c)[:120]}: {str(sol)[:200]}"
+        seen.add(tuple(val))
+    if len(seen) != len(sols):
+        return f"{len(sols)} solutions returned but only {len(seen)} distinct"
+    if "count" in known and len(sols) != min(max(limit, 1), known["count"]):
+        return f"{len(sols)} solutions returned for solution_limit={limit}, {known['count']} exist"
+    return None
+
+
+# ---------------------------------------------------------------- O option corners, A call sequences
+LIMIT_CORNERS = [0, -1, -7, 10**9, 2**63, 2**64 + 1]
+
+
+def sweep_options(rng, spec, truth, hints):
+    """solution_limit 0..40 and corners on every back-end; the SAT budgets (max_conflicts, max_restarts, luby_factor)
+    from 0 upwards.  -> list of (solver, limit, hints, kwargs, verdict, out) that the oracle rejects, number of runs."""
+    bad, runs = [], 0
+    limits = list(range(0, 13)) + rng.sample(range(13, 41), 5) + LIMIT_CORNERS
+    for limit in limits:
+        solver = rng.choice(SOLVERS)
+        h = hints if rng.random() < 0.2 else None
+        out = run_impl(spec, solver, limit, h)
+        runs += 1
+        v = judge(spec, truth, solver, limit, h, out)
+        if v:
+            bad.append((solver, limit, h, {}, v, out))
+    for _ in range(14):
+        kw = {}
+        which = rng.choice(["max_conflicts", "max_conflicts", "max_restarts", "luby_factor", "two"])
+        if which in ("max_conflicts", "two"):
+            kw["max_conflicts"] = rng.choice(list(range(0, 12)) + [40, 99_999, 100_000, 100_001])
+        if which in ("max_restarts", "two"):
+            kw["max_restarts"] = rng.choice([0, 1, 2, 3, 9_999, 10_000, 10_001])
+        if which == "luby_factor":
+            kw["luby_factor"] = rng.choice([1, 2, 3, 99, 100, 101])
+        solver, limit = rng.choice(["sat", "sat", "auto", "dfs"]), rng.choice([1, 2, 5, 1000])
+        out = run_impl(spec, solver, limit, None, kwargs=kw)
+        runs += 1
+        v = judge(spec, truth, solver, limit, None, out, budget=True)
+        if v:
+            bad.append((solver, limit, None, kw, v, out))
+    return bad, runs
+
+
+def sequence_check(rng, spec, hints, fresh):
+    """Class A: all settings on ONE Model object in a random order (so every back-end runs after every other one, and
+    each setting after itself); each answer must equal the answer of a freshly built model."""
+    m = build_model(spec)
+    settings = [(s, l, h) for s in SOLVERS for l in LIMITS for h in (None, hints)]
+    rng.shuffle(settings)
+    settings = settings + settings[:3]
+    bad, runs = [], 0
+    for solver, limit, h in settings:
+        out = run_impl(spec, solver, limit, h, model=m)
+        runs += 1
+        ref = fresh.get((solver, limit, h is None))
+        if ref is None or ref[0] != "ok":
+            continue
+        if out[0] != "ok" or (out[1], out[2]) != (ref[1], ref[2]):
+            bad.append((solver, limit, h, f"the answer on a Model that was solved before differs from the answer of a fresh "
+                        f"model: {str(out[1:3])[:200]} vs {str(ref[1:3])[:200]}", out))
+    return bad, runs
+
+
+# ---------------------------------------------------------------- H rare histories: instrumented reference port
+def ref_events(vs, cons, hints, limit):
+    """A plain re-implementation of the DFS of cp.py over the walked model, reporting which internal situations
+    occurred.  Used ONLY to steer generation towards rare histories (never as a judge)."""
+    E = set()
+    names = [v[0] for v in vs]
+    hidden = [v[3] for v in vs]
+
+    def lin(l, r):
+        terms, const = {}, [0]
+
+        def visit(e, mult):
+            k = e[0]
+            if k == "var":
+                if e[1] in terms:
+                    E.add("lin_same_var_twice")
+                terms[e[1]] = terms.get(e[1], 0) + mult
+            elif k == "const":
+                const[0] += mult * e[1]
+            elif k == "add":
+                visit(e[1], mult), visit(e[2], mult)
+            elif k == "sub":
+                visit(e[1], mult), visit(e[2], -mult)
+            elif k == "rsub":
+                E.add("lin_rsub")
+                visit(e[2], mult), visit(e[1], -mult)
+            else:
+                if e[2] < 0:
+                    E.add("lin_negative_mul")
+                visit(e[1], mult * e[2])
+
+        visit(l, 1), visit(r, -1)
+        if any(c == 0 for c in terms.values()):
+            E.add("lin_term_cancels")
+        return {i: c for i, c in terms.items() if c != 0}, const[0]
+
+    def prop_one(c, D):
+        k = c[0]
+        if k == "all_different":
+            for i, a in enumerate(c[1]):
+                if len(D[a]) == 1:
+                    val = next(iter(D[a]))
+                    for j, b in enumerate(c[1]):
+                        if j != i and val in D[b]:
+                            D[b].discard(val)
+                            E.add("alldiff_removed")
+                            if len(D[b]) == 1 and j < i:
+                                E.add("alldiff_cascade_backwards")
+                            if not D[b]:
+                                E.add("alldiff_wipeout")
+            return True
+        if k == "eq_const":
+            if c[2] not in D[c[1]]:
+                E.add("eq_const_fail")
+                return False
+            D[c[1]] = {c[2]}
+        elif k == "ne_const":
+            D[c[1]].discard(c[2])
+        elif k == "eq_var":
+            common = D[c[1]] & D[c[2]]
+            if not common:
+                E.add("eq_var_fail")
+                return False
+            if len(common) < len(D[c[1]]) or len(common) < len(D[c[2]]):
+                E.add("eq_var_shrinks")
+            D[c[1]], D[c[2]] = common, set(common)
+        elif k == "ne_var":
+            if c[1] == c[2]:
+                E.add("ne_var_same")
+            if len(D[c[1]]) == 1:
+                D[c[2]].discard(next(iter(D[c[1]])))
+            if len(D[c[2]]) == 1:
+                D[c[1]].discard(next(iter(D[c[2]])))
+        elif k == "ne_expr":
+            coefs, const = lin(c[1], c[2])
+            free = [n for n in coefs if len(D[n]) > 1]
+            const += sum(co * next(iter(D[n])) for n, co in coefs.items() if n not in free)
+            if not coefs:
+                E.add("lin_no_variables")
+            if not free:
+                ok = (const != 0) if c[3] else (const == 0)
+                E.add("lin_leaf_true" if ok else "lin_leaf_false")
+                return ok
+            if c[3]:
+                if len(free) == 1:
+                    co = coefs[free[0]]
+                    if const % co == 0:
+                        E.add("ne_one_free_divisible" + ("_negcoef" if co < 0 else "") + ("_bigcoef" if abs(co) > 1 else ""))
+                        if -const // co in D[free[0]]:
+                            E.add("ne_removed_value")
+                        D[free[0]].discard(-const // co)
+                    else:
+                        E.add("ne_one_free_not_divisible")
+                else:
+                    E.add("ne_many_free")
+                return True
+            for name in free:
+                co = coefs[name]
+                others = [n for n in free if n != name]
+                before = len(D[name])
+                if len(others) == 1:
+                    reach = {-const - coefs[others[0]] * v for v in D[others[0]]}
+                    D[name] = {v for v in D[name] if co * v in reach}
+                    if len(D[name]) < before:
+                        E.add("eq_two_free_pruned" + ("_coef" if abs(co) > 1 or abs(coefs[others[0]]) > 1 else ""))
+                else:
+                    lo = sum(min(coefs[n] * v for v in D[n]) for n in others)
+                    hi = sum(max(coefs[n] * v for v in D[n]) for n in others)
+                    D[name] = {v for v in D[name] if lo <= -const - co * v <= hi}
+                    if len(D[name]) < before:
+                        E.add("eq_bounds_pruned" if others else "eq_one_free_pruned")
+                    elif len(others) >= 2:
+                        E.add("eq_bounds_kept_all")
+                if not D[name]:
+                    E.add("eq_wipeout")
+                    return False
+        return True
+
+    def propagate(D):
+        passes = 0
+        changed = True
+        while changed:
+            changed = False
+            passes += 1
+            for c in cons:
+                old = [len(d) for d in D]
+                if not prop_one(c, D):
+                    return False
+                for n, d in enumerate(D):
+                    if not d:
+                        E.add("wipeout_after_constraint")
+                        return False
+                    if len(d) < old[n]:
+                        changed = True
+        if passes >= 3:
+            E.add("fixpoint_3_passes")
+        if passes >= 4:
+            E.add("fixpoint_4_passes")
+        return True
+
+    def run(hints):
+        D = [set(range(v[1], v[2] + 1)) for v in vs]
+        if hints:
+            for nm, val in hints.items():
+                if nm in names and val in D[names.index(nm)]:
+                    D[names.index(nm)] = {val}
+                    E.add("hint_applied" + ("_hidden" if nm.startswith("_") else ""))
+                else:
+                    E.add("hint_ignored")
+        if not propagate(D):
+            E.add("root_infeasible")
+            return []
+        sols = []
+
+        def bt(D, depth):
+            openv = [n for n in range(len(D)) if len(D[n]) > 1]
+            if not openv:
+                sols.append(tuple(next(iter(d)) for n, d in enumerate(D) if not hidden[n]))
+                return True
+            if depth >= 3:
+                E.add("depth_3")
+            un = [n for n in openv if not hidden[n]]
+            cand = un or openv
+            var = min(cand, key=lambda n: len(D[n]))
+            if len([n for n in cand if len(D[n]) == len(D[var])]) > 1 and cand.index(var) > 0:
+                E.add("mrv_not_first")
+            failed = False
+            for val in list(D[var]):
+                nd = [set(d) for d in D]
+                nd[var] = {val}
+                if propagate(nd) and bt(nd, depth + 1):
+                    if failed and not un:
+                        E.add("hidden_completion_after_failure")
+                    if failed and un:
+                        E.add("solution_after_failed_sibling")
+                    if not un or len(sols) >= limit:
+                        if un and val != list(D[var])[-1]:
+                            E.add("limit_stops_mid_loop")
+                        return True
+                else:
+                    failed = True
+            if not un and failed:
+                E.add("hidden_subtree_fails")
+            return False
+
+        bt(D, 0)
+        return sols
+
+    sols = run(hints)
+    if hints and not sols:
+        E.add("hint_retry")
+        sols = run(None)
+        if sols:
+            E.add("hint_retry_feasible")
+    if len(sols) >= 2:
+        E.add("many_solutions")
+    return E
+
+
+def spec_events(spec, hints, limit):
+    if not dfs_supported(spec):
+        return set()
+    try:
+        m = build_model(spec)
+        if m is None or any(lo > hi for _, lo, hi in spec["vars"]):
+            return set()
+        vs, cons = walk_model(m)
+        return ref_events(vs, cons, hints, limit)
+    except (ValueError, RecursionError):
+        return set()
+
+
+def mutate_spec(rng, spec):
+    sp = json.loads(json.dumps(spec))
+    nv = len(sp["vars"])
+    r = rng.random()
+    if r < 0.3 and sp["cons"]:
+        sp["cons"].pop(rng.randrange(len(sp["cons"])))
+    elif r < 0.65:
+        sp["cons"].insert(rng.randint(0, len(sp["cons"])), rand_constraint(rng, nv, True))
+    elif r < 0.8:
+        i = rng.randrange(nv)
+        sp["vars"][i][2] = max(sp["vars"][i][1], sp["vars"][i][2] + rng.choice([-1, 1]))
+    elif r < 0.9 and nv < 5:
+        sp["vars"].append([None if rng.random() < 0.5 else f"w{nv}", rng.randint(-2, 2), rng.randint(2, 4)])
+    else:
+        i = rng.randrange(nv)
+        sp["vars"][i][0] = None if sp["vars"][i][0] is not None else f"n{i}"
+    sp["cons"] = sp["cons"][:5]
+    return sp
+
+
+def event_guided(rng, n_keep, seen, rounds):
+    """Event-directed search: random DFS-only specs and mutations of the ones that showed a rare situation; keep the
+    specs that add the rarest events.  `seen` counts events over the whole run (seeded from the committed corpus)."""
+    kept = []
+    pool = []
+    for _ in range(rounds):
+        if pool and rng.random() < 0.5:
+            sp = mutate_spec(rng, rng.choice(pool))
+        else:
+            sp = rand_spec(rng)
+            if not dfs_supported(sp):
+                continue
+        if box_size(sp) > 4000 or box_size(sp) == 0:
+            continue
+        hints = rand_hints(rng, sp) if rng.random() < 0.5 else None
+        limit = rng.choice([1, 2, 3, 1000])
+        evs = spec_events(sp, hints, limit)
+        score = sum(1.0 / (1 + seen.get(e, 0)) for e in evs)
+        new = [e for e in evs if seen.get(e, 0) < 3]
+        if new or score > 1.5:
+            for e in evs:
+                seen[e] = seen.get(e, 0) + 1
+            sp["family"] = "H"
+            sp["hints"] = hints
+            kept.append((score, sp, sorted(new)))
+            pool.append(sp)
+            pool = pool[-30:]
+    kept.sort(key=lambda t: -t[0])
+    return kept[:n_keep]
+
+
 def _corpus():
     out = []
     d = VERIF / "corpus" / "C05"
@@ -646,47 +1297,84 @@ def run(ctx: Ctx):
                 "non-trivial = buildable model with >= 1 constraint whose brute-force solution set is neither empty nor the whole box; "
                 "distinct = canonical JSON of the spec")
     ctx.proof_step(["C05"])
+    thorough = ctx.tier == "thorough"
     n = ctx.budget(260, 5000)
     specs = []
+    seen_events = {}
     for o in _corpus():
         if o.get("candidate_finding"):
             continue
-        specs.append({"vars": o["vars"], "cons": o["cons"], "hints": o.get("hints")})
-    specs += [{"vars": f["vars"], "cons": f["cons"], "hints": f.get("hints")} for f in FIXED]
+        specs.append({"vars": o["vars"], "cons": o["cons"], "hints": o.get("hints"), "family": "corpus"})
+        for e in o.get("events", []):
+            seen_events[e] = seen_events.get(e, 0) + 1
+    specs += [{"vars": f["vars"], "cons": f["cons"], "hints": f.get("hints"), "family": "fixed"} for f in FIXED]
     tries = 0
     while len(specs) < n + len(FIXED) and tries < 20 * n:
         tries += 1
         s = rand_spec(ctx.rng)
         if box_size(s) > 6 ** 5:
             continue
+        s = decorate(ctx.rng, s)
+        s.setdefault("family", "R")
         specs.append(s)
+    # M: magnitudes
+    for _ in range(ctx.budget(90, 1500)):
+        specs.append(decorate(ctx.rng, rand_spec_big(ctx.rng)))
+    # H: event-directed
+    for score, sp, new in event_guided(ctx.rng, ctx.budget(40, 500), seen_events, ctx.budget(1500, 25000)):
+        specs.append(sp)
+        for e in new:
+            ctx.count("rare_event", e)
 
     dfs_cases, dfs_meta, ans_cases, ans_meta = [], [], [], []
+
+    def report(sp, solver, limit, h, bad, out, extra=None):
+        small = sp
+        if solver in SOLVERS and not extra:
+            small = shrink(sp, solver, limit, h)
+            if small != sp:
+                out = run_impl(small, solver, limit, h)
+                bad = judge(small, oracle(small), solver, limit, h, out) or bad
+        ctx.violation(f"Model.solve(solver={solver!r}, solution_limit={limit}, hints={h}{', ' + str(extra) if extra else ''}): {bad}",
+                      {"spec": small, "solver": solver, "limit": limit, "hints": h, "original_spec": sp,
+                       "impl": str(out)[:400], **({"extra": extra} if extra else {})})
+
     for spec in specs:
         hints = spec.get("hints") or rand_hints(ctx.rng, spec)
-        sp = {"vars": spec["vars"], "cons": spec["cons"]}
+        sp = {k: spec[k] for k in ("vars", "cons", "iter", "twice") if k in spec}
         rec = explore(sp, hints)
         if rec["skipped"]:
             ctx.count("skipped", rec["skipped"].split(":")[0])
             continue
         ctx.evaluations += rec["runs"]
+        ctx.count("family", spec.get("family", "R"))
+        ctx.count("iter", sp.get("iter", "list"))
         ctx.count("status", rec["status"])
         ctx.count("path", "dfs" if dfs_supported(sp) else "sat")
         ctx.count("nvars", len(sp["vars"]))
         ctx.count("hidden", sum(1 for v in sp["vars"] if is_hidden(v[0])))
+        ctx.count("magnitude", len(str(max([abs(v[1]) for v in sp["vars"]] + [0]))))
         for c in sp["cons"]:
             ctx.count("kind", c[0] if c[0] != "lin" else ("lin_ne" if c[3] else "lin_eq"))
         if sp["cons"] and 0 < rec["truth_n"] and len(all_full_solutions(sp)) < box_size(sp):
             ctx.nontriv(json.dumps(sp, sort_keys=True))
         ctx.sample({"spec": sp, "solutions": rec["truth_n"]}, 3)
         for solver, limit, h, bad, out in rec["bad"]:
-            small = shrink(sp, solver, limit, h) if solver in SOLVERS else sp
-            if solver in SOLVERS and small != sp:
-                out = run_impl(small, solver, limit, h)
-                bad = judge(small, oracle(small), solver, limit, h, out) or bad
-            ctx.violation(f"Model.solve(solver={solver!r}, solution_limit={limit}, hints={h}): {bad}",
-                          {"spec": small, "solver": solver, "limit": limit, "hints": h, "original_spec": sp,
-                           "impl": str(out)[:400]})
+            report(sp, solver, limit, h, bad, out)
+        if not rec["bad"]:
+            r = ctx.rng.random()
+            if r < 0.25:  # A: call sequences on one Model object
+                bad, runs = sequence_check(ctx.rng, sp, hints, rec["outs"])
+                ctx.evaluations += runs
+                ctx.count("extra", "sequence")
+                for solver, limit, h, msg, out in bad[:1]:
+                    report(sp, solver, limit, h, msg, out, extra="after other solves on the same Model")
+            elif r < 0.37:  # O: option corners and sweeps
+                bad, runs = sweep_options(ctx.rng, sp, rec["truth"], hints)
+                ctx.evaluations += runs
+                ctx.count("extra", "option_sweep")
+                for solver, limit, h, kw, msg, out in bad[:1]:
+                    report(sp, solver, limit, h, msg, out, extra=kw or "limit sweep")
         for term, meta in rec["dfs_cases"]:
             dfs_cases.append(term)
             dfs_meta.append(meta)
@@ -694,6 +1382,20 @@ def run(ctx: Ctx):
         for term in rec["ans_cases"]:
             ans_cases.append(term)
             ans_meta.append(sp)
+
+    # S: size thresholds, answers known by construction
+    for sp, known, settings, timeout in known_cases(ctx.rng, thorough):
+        fam = {k: sp[k] for k in ("vars", "cons")}
+        rec = explore_known(fam, known, settings, timeout)
+        ctx.evaluations += rec["runs"]
+        ctx.count("family", "S")
+        ctx.count("size", f"{len(sp['vars'])}v/{len(sp['cons'])}c")
+        for solver, limit, h, bad, out in rec["bad"]:
+            ctx.violation(f"Model.solve(solver={solver!r}, solution_limit={limit}) on a structured large model: {bad}",
+                          {"spec": fam, "known": known, "solver": solver, "limit": limit, "hints": None, "impl": str(out)[:300]})
+        for term in rec["ans_cases"]:
+            ans_cases.append(term)
+            ans_meta.append({"vars": len(sp["vars"]), "cons": len(sp["cons"])})
 
     fail_dfs = ctx.coq_check(
         "dfs", IMPORTS, "cpmodel * list (nat * Z) * Z * list sol",
@@ -753,6 +1455,14 @@ def run(ctx: Ctx):
         "value order of the DFS (iteration order of a Python set) is an oracle of the model: compared order-free, exactly only for domains inside 0..7",
         "SAT path is judged end-to-end by the oracle and by the Coq spec_check; its pieces (encoder, solver) are the subject of C06 / C01",
         "enumeration completeness (fewer answers than solution_limit => all solutions) is demanded only without hints",
+        "round-2 families: M magnitudes (domains/coefficients/constants at 2^31..2^64, 10^18, brute force exact), L odd/falsy/fresh names, "
+        "I one-shot iterables for all_different/circuit/sum_*, S structured large models with by-construction answers (17..2049 "
+        "variables/terms/constraints, 65537-value domains, 2^13 solutions, > 10^5 search nodes), O solution_limit 0..40 and corners, "
+        "SAT budgets from 0 (MAX_ITER accepted only with an explicit budget), A caller objects and the Model unchanged by solve, "
+        "answers independent of earlier solves on the same Model, duplicated constraints, H event-directed specs (reference port "
+        "used for steering only)",
+        "size limits of the generator (observed on /repo, reported): nested expressions and open variables stay below ~990 "
+        "(deeper ones raise RecursionError in _linearize / backtrack)",
     ]
 
 
